@@ -11,6 +11,8 @@ VIOLATION is a false alarm of the machinery and is listed.
   T3 name the returned value:  return e  ->  _rv = e; return _rv
   T4 split conjunctions without else:  if a and b: S  ->  if a: if b: S
   T5 whole module re-emitted by ast.unparse (layout, quotes, comments gone)
+  T6 drop else after a body that always leaves;  T7 the inverse (what follows becomes the else)
+  T8 first call argument extracted into a local:  f(g(x))  ->  _a0 = g(x); f(_a0)
 """
 import ast
 import copy
@@ -41,7 +43,7 @@ def run_one(args):
 def main(argv):
     props = check.PROPS
     jobs = 16
-    kinds = ['T1', 'T2', 'T3', 'T4', 'T5']
+    kinds = ['T1', 'T2', 'T3', 'T4', 'T5', 'T6', 'T7', 'T8']
     if '--props' in argv:
         props = argv[argv.index('--props') + 1].split(',')
     if '--jobs' in argv:
